@@ -146,6 +146,7 @@ package filesystem
 //@   ensures private-stored-encrypted: err == nil && data.Format == api.ThemisKeyPairFormat && len(data.PrivateKey) != 0 ==> called(KeyRing.encryptPrivateKey) && ret(KeyRing.encryptPrivateKey)[1] == nil && sameslice(key.Data[len(key.Data)-1].PrivateKey, ret(KeyRing.encryptPrivateKey)[0])
 //@   ensures symmetric-stored-encrypted: err == nil && data.Format == api.ThemisSymmetricKeyFormat ==> called(KeyRing.encryptSymmetricKey) && ret(KeyRing.encryptSymmetricKey)[1] == nil && sameslice(key.Data[len(key.Data)-1].SymmetricKey, ret(KeyRing.encryptSymmetricKey)[0])
 //@   ensures nothing-else: err == nil ==> data.Format == api.ThemisKeyPairFormat || data.Format == api.ThemisSymmetricKeyFormat
+//@   ensures one-item-appended: err == nil ==> len(key.Data) == old(len(key.Data)) + 1
 //@   ensures grows-in-place-or-moves-to-new-memory: sameregion(key.Data, old(key.Data)) || fresh(key.Data)
 //@   ensures failure-keeps-data: err != nil ==> sameslice(key.Data, old(key.Data))
 //@   at call KeyRing.encryptPrivateKey : assert arg[0] == key.Seqnum && sameslice(arg[1], data.PrivateKey)
@@ -240,7 +241,9 @@ package filesystem
 //@   ensures (err == nil) <==> (key != nil)
 //@   ensures same-identity: err == nil ==> key.Seqnum == other.Seqnum && key.State == other.State && fresh(key)
 //@   ensures rejects-empty: len(other.Data) == 0 ==> err != nil
+//@   ensures same-number-of-data-items: err == nil ==> len(key.Data) == len(other.Data)
 //@   loop 0 invariant fresh(key.Data)
+//@          invariant one-item-per-source-item: len(key.Data) == $n
 //@          step data-through-addKeyData: itercalled(KeyRing.addKeyData) && ret(KeyRing.addKeyData)[0] == nil && argof(KeyRing.addKeyData)[1] == &key && sameslice(argof(KeyRing.addKeyData)[0].PrivateKey, otherKey.PrivateKey) && sameslice(argof(KeyRing.addKeyData)[0].SymmetricKey, otherKey.SymmetricKey) && sameslice(argof(KeyRing.addKeyData)[0].PublicKey, otherKey.PublicKey)
 //@   modifies nothing
 
